@@ -581,6 +581,16 @@ def run(tier: str) -> int:
                 rep.violation(f"behaviour|{key}", f"{key}: hierarchical design differs from the inlined one at clock {info['clock']}: {info['hierarchical']} vs {info['inlined']} for inputs {info['trace'][-1]}", {"vhdl_hier": th, "vhdl_flat": tf, **info})
             else:
                 rep.inconclusive_query(f"{key}: {info}")
+        # every formal is wired to a DRIVEN actual: an expression written as port actual of an instance that is created directly in the
+        # architecture (outside every context) is evaluated by plain Python and never assigned -- such a design must be refused
+        for key, body in (("arch-level-expression-actual", ["LeafComb(a=self.x + 1, b=self.y, o=self.o1)", "LeafMix(a=self.y, b=self.x, o=self.o2)", "LeafBits(x=self.v[1:0], o=self.ob)"]),
+                          ("arch-level-slice-of-expression-actual", ["LeafComb(a=self.x, b=self.y, o=self.o1)", "LeafMix(a=self.y, b=self.x, o=self.o2)", "LeafBits(x=(self.v ^ '1111')[1:0], o=self.ob)"])):
+            th, eh = compile_design(wd, design("Top", body), "Top", "c12u")
+            rep.stats.programs += 1
+            if th is None:
+                counts["undriven-actual-rejected"] = counts.get("undriven-actual-rejected", 0) + 1
+            else:
+                rep.violation(f"undriven-actual|{key}", f"{key}: accepted, the instance input is bound to a temporary that no statement assigns", {"source": design("Top", body), "vhdl": th})
         run_connections(rep, wd, [2, 3] if tier == "quick" else [1, 2, 3, 4, 5, 8], counts)
         rep.stats.units |= {"cohdl._core._context.Entity.__init__", "frontend ConvertPythonInstance.apply (templates)", "backend EntityInst (port map), Library.from_top_entity (unit order)", "_vhdl_assembler (ir.Entity / EntityTemplate)"}
         rep.assumptions += ["bounded for clocked trees: K=%d clocks from power-up, all registers have declared defaults; combinational trees: all inputs" % K,
